@@ -65,7 +65,7 @@ def rep_defs(ref):
 
 GEN_DEFS = r"""
 DataOfLen(n) == [i \in 1..n |-> 96 + i]
-StrDatas == {DataOfLen(n) : n \in 1..9}
+StrDatas == {DataOfLen(n) : n \in 0..9}
 W32 == {<<0,0,0,0>>, <<0,0,0,1>>, <<127,255,255,255>>, <<128,0,0,0>>, <<255,255,255,255>>, <<1,2,3,4>>}
 W64 == {<<0,0,0,0,0,0,0,0>>, <<127,255,255,255,255,255,255,255>>, <<0,0,0,1,0,0,0,0>>, <<1,2,3,4,5,6,7,8>>}
 AddrDatas == {<<0,1,10,0,0,1>>, <<0,1,255,255,255,255>>, <<0,2, 32,1,13,184, 0,0,0,0, 0,0,0,0, 0,0,0,1>>}
